@@ -35,6 +35,9 @@ def fresh_ns():
 def example_sources(rng, k):
     """one example: (source lines, option directive or None, guard class or None)"""
     r = rng.random()
+    if r < 0.03:
+        # an output with many blank lines (each spelled <BLANKLINE> in the want) and many lines
+        return ['for r%d in range(t(%d) - %d + 11):' % (k, k, k), "    print('rec', r%d)" % k, '    print()'], None, None
     if r < 0.12:
         return ['v%d = t(%d)' % (k, k)], None, None
     if r < 0.24:
